@@ -8,6 +8,7 @@ import (
 	"fmt"
 	"testing"
 
+	"github.com/go-i2p/common/certificate"
 	"github.com/go-i2p/common/data"
 	"github.com/go-i2p/common/encrypted_leaseset"
 	"github.com/go-i2p/common/key_certificate"
@@ -24,7 +25,7 @@ import (
 	"verif/internal/model"
 )
 
-const rule = "part 1 (exhaustive): every signing-type code and every crypto-type code 0..65535 through every size lookup (two maps + constants in key_certificate, GetKeySizes/GetSigningKeySize/GetCryptoKeySize/GetSignatureSize, KeyCertificate.{SignatureSize,SigningPublicKeySize,CryptoSize,CryptoPublicKeySize}, signature.SignatureSize, offline_signature.{SigningPublicKeySize,SignatureSize}) plus behavioural probes (LeaseSet2.Validate on a key of that type with right/wrong length, ReadEncryptedLeaseSet and ReadOfflineSignature framing with that type): all answers must agree with each other, and with the specification table for the codes it defines (reserved codes: mutual agreement only). (the leaseset key validation is probed with the key alone, in second position after an X25519 and after an ElGamal key, and in first position before another key) part 2 (generated): identities of every supported (signing, crypto) pair with arbitrary key, padding and certificate bytes through the parser, the constructor and the two key-type-specific readers (which must accept their own pair and, for whatever else they accept, obey the same layout): key bytes at [0,cs) and [384-ss,384), padding exactly between, declared sizes = lengths of the keys returned. Non-trivial: code known to at least one table, or an identity with non-empty padding; distinct by code / identity bytes."
+const rule = "part 1 (exhaustive): every signing-type code and every crypto-type code 0..65535 through every size lookup (two maps + constants in key_certificate, GetKeySizes/GetSigningKeySize/GetCryptoKeySize/GetSignatureSize, KeyCertificate.{SignatureSize,SigningPublicKeySize,CryptoSize,CryptoPublicKeySize}, signature.SignatureSize, offline_signature.{SigningPublicKeySize,SignatureSize}) plus behavioural probes (LeaseSet2.Validate on a key of that type with right/wrong length, ReadEncryptedLeaseSet and ReadOfflineSignature framing with that type): all answers must agree with each other, and with the specification table for the codes it defines (reserved codes: mutual agreement only). (key certificates for every code are also obtained through NewKeyCertificateWithTypes, the certificate builder and the parser and must declare that code, serialise to it and answer like the tables; the leaseset key validation is probed with the key alone, in second position after an X25519 and after an ElGamal key, and in first position before another key) part 2 (generated): identities of every supported (signing, crypto) pair with arbitrary key, padding and certificate bytes through the parser, the constructor and the two key-type-specific readers (which must accept their own pair and, for whatever else they accept, obey the same layout): key bytes at [0,cs) and [384-ss,384), padding exactly between, declared sizes = lengths of the keys returned. Non-trivial: code known to at least one table, or an identity with non-empty padding; distinct by code / identity bytes."
 
 func TestMain(m *testing.M) { ev.Main(m, "C10", rule) }
 
@@ -117,6 +118,46 @@ func checkSigCode(code int, r *ev.Rec) error {
 			sig = a.sig
 		}
 	}
+	// a key certificate for this code obtained through the constructors and through the parser
+	// declares exactly this code and answers the size questions like the tables
+	for _, route := range []struct {
+		name string
+		mk   func() (*key_certificate.KeyCertificate, error)
+	}{
+		{"NewKeyCertificateWithTypes(code, 4)", func() (*key_certificate.KeyCertificate, error) {
+			return key_certificate.NewKeyCertificateWithTypes(code, 4)
+		}},
+		{"NewKeyCertificate(05 0004 <code> 0004)", func() (*key_certificate.KeyCertificate, error) {
+			kc, _, err := key_certificate.NewKeyCertificate([]byte{5, 0, 4, byte(code >> 8), byte(code), 0, 4})
+			return kc, err
+		}},
+		{"CertificateBuilder.WithKeyTypes(code, 4) -> KeyCertificateFromCertificate", func() (*key_certificate.KeyCertificate, error) {
+			b, err := certificate.NewCertificateBuilder().WithKeyTypes(code, 4)
+			if err != nil {
+				return nil, err
+			}
+			c, err := b.Build()
+			if err != nil {
+				return nil, err
+			}
+			return key_certificate.KeyCertificateFromCertificate(c)
+		}},
+	} {
+		kc, err := route.mk()
+		if err != nil || kc == nil {
+			continue
+		}
+		if got := kc.SigningPublicKeyType(); got != code {
+			return fmt.Errorf("signing type %d: the key certificate from %s declares signing type %d", code, route.name, got)
+		}
+		if want := []byte{5, 0, 4, byte(code >> 8), byte(code), 0, 4}; !bytes.Equal(kc.Bytes(), want) {
+			return fmt.Errorf("signing type %d: the key certificate from %s serialises to % x, want % x", code, route.name, kc.Bytes(), want)
+		}
+		ss, ps := kc.SignatureSize(), kc.SigningPublicKeySize()
+		if (ss != 0 || ps != 0) != ans[0].known || (ans[0].known && (ps != pub || ss != sig)) {
+			return fmt.Errorf("signing type %d: the key certificate from %s reports key %d / signature %d bytes, the tables say known=%v %d / %d", code, route.name, ps, ss, ans[0].known, pub, sig)
+		}
+	}
 	// behavioural probes: framing of a signature / offline signature / encrypted leaseset of that type
 	known := ans[0].known
 	if known {
@@ -206,6 +247,44 @@ func checkEncCode(code int, r *ev.Rec) error {
 				return fmt.Errorf("crypto type %d: lookups disagree on the key length (%d vs %d at %s)", code, pub, a.pub, a.who)
 			}
 			pub = a.pub
+		}
+	}
+	// key certificates for this crypto code through the constructors and the parser
+	for _, route := range []struct {
+		name string
+		mk   func() (*key_certificate.KeyCertificate, error)
+	}{
+		{"NewKeyCertificateWithTypes(7, code)", func() (*key_certificate.KeyCertificate, error) {
+			return key_certificate.NewKeyCertificateWithTypes(7, code)
+		}},
+		{"NewKeyCertificate(05 0004 0007 <code>)", func() (*key_certificate.KeyCertificate, error) {
+			kc, _, err := key_certificate.NewKeyCertificate([]byte{5, 0, 4, 0, 7, byte(code >> 8), byte(code)})
+			return kc, err
+		}},
+		{"CertificateBuilder.WithKeyTypes(7, code) -> KeyCertificateFromCertificate", func() (*key_certificate.KeyCertificate, error) {
+			b, err := certificate.NewCertificateBuilder().WithKeyTypes(7, code)
+			if err != nil {
+				return nil, err
+			}
+			c, err := b.Build()
+			if err != nil {
+				return nil, err
+			}
+			return key_certificate.KeyCertificateFromCertificate(c)
+		}},
+	} {
+		kc, err := route.mk()
+		if err != nil || kc == nil {
+			continue
+		}
+		if got := kc.PublicKeyType(); got != code {
+			return fmt.Errorf("crypto type %d: the key certificate from %s declares crypto type %d", code, route.name, got)
+		}
+		if want := []byte{5, 0, 4, 0, 7, byte(code >> 8), byte(code)}; !bytes.Equal(kc.Bytes(), want) {
+			return fmt.Errorf("crypto type %d: the key certificate from %s serialises to % x, want % x", code, route.name, kc.Bytes(), want)
+		}
+		if cs := kc.CryptoSize(); (cs != 0) != ans[0].known || (ans[0].known && cs != pub) {
+			return fmt.Errorf("crypto type %d: the key certificate from %s reports a %d-byte key, the tables say known=%v %d", code, route.name, cs, ans[0].known, pub)
 		}
 	}
 	// leaseset key validation must use the same table
